@@ -32,6 +32,7 @@ from __future__ import annotations
 import copy
 import math
 from collections import deque
+from datetime import datetime
 
 import numpy as np
 
@@ -39,14 +40,26 @@ from verif import framework as fw
 from verif import scen  # noqa: F401  installs the in-process fake ray before resonaate is imported
 from verif.oracles import c17_ref as ref
 
+from resonaate.agents.estimate_agent import EstimateAgent
+from resonaate.data import setDBPath
+from resonaate.data.observation import Observation
 from resonaate.dynamics.two_body import TwoBody
-from resonaate.estimation import maneuverDetectionFactory
+from resonaate.estimation import maneuverDetectionFactory, sequentialFilterFactory
 from resonaate.estimation.kalman.unscented_kalman_filter import UnscentedKalmanFilter
 from resonaate.estimation.maneuver_detection import FadingMemoryNis, SlidingNis, StandardNis
-from resonaate.estimation.sequential_filter import FilterFlag
+from resonaate.estimation.sequential_filter import EstimateSource, FilterFlag
+from resonaate.parallel.estimate_prediction import EstPredictRegistration, asyncPredict
+from resonaate.parallel.estimate_update import EstUpdateRegistration, asyncUpdateEstimate
+from resonaate.physics.measurements import Measurement
 from resonaate.physics.statistics import chiSquareQuadraticForm, oneSidedChiSquareTest
 from resonaate.physics.time.stardate import ScenarioTime
-from resonaate.scenario.config.estimation_config import FadingMemoryNISConfig, SlidingNISConfig, StandardNISConfig
+from resonaate.scenario.clock import ScenarioClock
+from resonaate.scenario.config.estimation_config import (
+    FadingMemoryNISConfig,
+    SlidingNISConfig,
+    StandardNISConfig,
+    UKFConfig,
+)
 
 PROPERTY = "C17"
 LEVEL = "model_checking"
@@ -190,6 +203,13 @@ def _explore_items(tier, seed):
     return out
 
 
+def _real_items(tier, seed):
+    """Fully real agent runs.  thorough: every detector configuration; quick: the standard detector and every window /
+    delta with ONE threshold each (rotating, as for the unit families)."""
+    return [("real", kind, alpha, param, seed) for kind, alpha, param in _configs()
+            if tier != "quick" or _config_in_unit_family(0, kind, alpha, param)]
+
+
 def items(tier, seed):
     light, heavy = [], []
     for it in _explore_items(tier, seed):
@@ -199,7 +219,7 @@ def items(tier, seed):
     # and the middle item serially for its determinism check, so those two slots get cheap items
     # (deepest first: in the thorough tier the unit families are one level shallower)
     heavy.sort(key=lambda it: (-it[5], it[1] != FADING, -(it[3] if it[1] == SLIDING else 0)))
-    extra = [("stat", seed), ("tie", seed), ("misc", seed)]
+    extra = [("stat", seed), ("tie", seed), ("misc", seed)] + _real_items(tier, seed)
     out = [light[0]] + heavy + extra + light[1:]
     mid = len(out) // 2
     if out[mid] in heavy:
@@ -363,6 +383,271 @@ class _Filters:
         return got
 
 
+# ------------------------------------------------------------------------------------------------ reporting layer
+# "... and reports that statistic as its metric": what the library REPORTS for a declared maneuver is the
+# DetectedManeuver record that EstimateAgent.update builds (EstimateAgent._handleManeuverDetection) from the filter
+# attributes that checkManeuverDetection / UnscentedKalmanFilter.update leave behind.
+METHOD_NAME = {STANDARD: "StandardNis", SLIDING: "SlidingNis", FADING: "FadingMemoryNis"}
+REPORT_START = datetime(2021, 3, 30, 13, 36)
+REPORT_TGT = 10001
+REPORT_FULL_DEPTH = 3  # agent steps: all tree nodes up to this depth and the tails that start there; a third of the deeper ones
+REPORT_STEP_S = 60.0  # scripted agent: the agent's epoch at history step n is n minutes after the start
+# epoch of a record: Julian dates near 2.46e6 resolve 4.7e-10 day (4e-5 s); 1e-8 day (0.9 ms) is >= 5 orders below the
+# smallest slip to expose (the epoch of a neighbouring step: 60 s = 6.9e-4 day)
+JD_TOL = 1e-8
+# the two reported columns can only be told apart where the detector's statistic differs from the single-step NIS
+DISTINCT = 1e-3
+SENSOR_ECI = {
+    300000: (-1552.67475, 1473.6243, 5988.12597, -0.107453539, -0.114109571, 2.19e-04),
+    300001: (4500.0, 2500.0, 3700.0, -0.18, 0.33, 0.0),
+    300002: (6000.0, -1500.0, 1500.0, 0.1, 0.43, 0.02),
+}
+MEAS_LABELS = ("azimuth_rad", "elevation_rad", "range_km", "range_rate_km_p_sec")
+MEAS_VAR = (2.4e-11, 3.7e-11, 9.0e-08, 3.6e-10)
+# measurement kinds of one observation: O = optical (az, el), r = radar without range rate (3), R = radar (4)
+MEAS_DIM = {"O": 2, "r": 3, "R": 4}
+# sensor sets of the scripted agent steps (rotating with the history step): one sensor, two, three, one
+SCRIPT_SENSOR_SETS = ((300000,), (300001, 300002), (300002, 300000, 300001), (300001,))
+
+# fully real runs (item kind "real"): orbit, observation sets per step (rotated by the seed), burns
+REAL_DT = 300.0
+REAL_STEPS = 14
+REAL_TRUTH_0 = (6878.0, 0.0, 0.0, 0.0, 5.3, 5.4)
+REAL_EST_OFFSET = (0.05, -0.05, 0.05, 1e-4, -1e-4, 1e-4)
+REAL_P0 = (1e-2, 1e-2, 1e-2, 1e-6, 1e-6, 1e-6)
+REAL_PATTERN = (("O",), ("R",), ("O", "R"), (), ("R", "R"), ("O",), ("r",), ("r", "O", "r"), ("O",), ("R",), ("O", "O"),
+                ("R",), ("r", "O"), ("O",))
+REAL_BURN_STEP = 5
+REAL_BURNS = (0.0, 3e-4, 2e-3)  # km/s on +y and -z velocity: none, 0.42 m/s, 2.8 m/s
+# Real innovation covariances mix rad^2 and km^2 entries (ratio up to 1e10) but the quadratic form has no unit: what
+# matters is the conditioning of the correlation matrix C = D^-1/2 S D^-1/2 (measured on this lattice: < 600; a step
+# with cond(C) >= 1e5 is a harness error).  Forward error of v^T inv(S) v <= ~ n cond(C) 2^-53 * small constant
+# <= 10 * 1e5 * 1.1e-16 * 10 ~ 1e-9; the slips to expose (a neighbouring statistic reported, a window entry or the
+# (1 + delta) factor missing) are >= DISTINCT = 1e-3 relative: 6 orders of margin.
+REAL_TOL = 1e-9
+REAL_COND_MAX = 1e5
+
+
+def _jd(dt_obj, seconds):
+    """Julian date of ``dt_obj`` + seconds (own formula: days since J2000.0 = 2000-01-01T12:00 = JD 2451545)."""
+    return 2451545.0 + ((dt_obj - datetime(2000, 1, 1, 12)).total_seconds() + seconds) / 86400.0
+
+
+def _measurement(kind):
+    n = MEAS_DIM[kind]
+    return Measurement.fromMeasurementLabels(list(MEAS_LABELS[:n]), np.diagflat(MEAS_VAR[:n]))
+
+
+class _ScriptedUKF(UnscentedKalmanFilter):
+    """A real UKF whose ``update`` consists of the LAST lines of ``UnscentedKalmanFilter.update`` only, with the
+    innovation and its covariance supplied by the harness: flags reset (``forecast``), source, ``innov_cvr``,
+    ``innovation``, ``nis`` = the real quadratic form, the real ``checkManeuverDetection``.  Every attribute the
+    EstimateAgent reads afterwards is written by real code."""
+
+    verif_script = None
+
+    def update(self, observations):
+        if not observations:
+            raise RuntimeError("harness: scripted update without observations")
+        vec, cov = self.verif_script
+        self._flags = FilterFlag.NONE
+        self.source = EstimateSource.INTERNAL_OBSERVATION
+        self.innov_cvr = cov
+        self.innovation = vec
+        self.nis = chiSquareQuadraticForm(vec, cov)
+        self.checkManeuverDetection()
+
+
+def _agent_update(agent, obs, job):
+    """EstimateAgent.update (serial) or the parallel job path: EstUpdateRegistration + asyncUpdateEstimate through the
+    in-process ray (pickled agent, updated filter and records handed back by processResults)."""
+    if not job:
+        agent.update(obs)
+        return
+    import ray  # noqa: PLC0415  (the in-process fake)
+
+    reg = EstUpdateRegistration(agent, ray.put(agent), obs)
+    reg.processResults(ray.get(asyncUpdateEstimate.remote(reg.generateSubmission())))
+
+
+def _agent_predict(agent):
+    """One prediction step of the agent's filter, the way the scenario does it (EstPredictRegistration + asyncPredict)."""
+    import ray  # noqa: PLC0415  (the in-process fake)
+
+    reg = EstPredictRegistration(agent)
+    reg.processResults(ray.get(asyncPredict.remote(reg.generateSubmission())))
+
+
+def _check_records(res, sub, kind, alpha, recs, got, nis_ref, metric_r, dof_r, bound_r, sensors, jd_want, tol, mk, item):
+    """The DetectedManeuver records of ONE agent update against the documented content: exactly one record iff the
+    detector declared a maneuver; nis = the step's normalised innovation squared, metric = the detector's documented
+    statistic (the one that reached the bound of the reported threshold), threshold = configured significance, method
+    = detector class, sensor ids = the distinct sensors of the step's observations, epoch and target of the step."""
+    want_n = 1 if got else 0
+    ok = len(recs) == want_n
+    res.case(
+        f"{sub}/count",
+        mk(records=len(recs), detected=got) if (not ok or len(res.samples) < 2) else _EMPTY,
+        ok,
+        nontrivial=got,
+        signature=f"C17/{kind}/report/count/{'missing' if len(recs) < want_n else 'spurious'}",
+        observed=len(recs),
+        expected=want_n,
+        outcome=f"records:{want_n}",
+        item=item,
+    )
+    distinct = abs(metric_r - nis_ref) > DISTINCT * max(abs(metric_r), 1e-300)
+    for rec in recs:
+        r_nis, r_metric, r_thr = _f(rec.nis), _f(rec.metric), _f(rec.threshold)
+        okm = r_metric is not None and abs(r_metric - metric_r) <= tol * max(abs(metric_r), 1e-300)
+        res.case(
+            f"{sub}/metric",
+            mk(single_step_nis=nis_ref, statistic=metric_r) if not okm else _EMPTY,
+            okm,
+            nontrivial=distinct,
+            signature=f"C17/{kind}/report/metric",
+            observed={"metric": r_metric, "nis": r_nis},
+            expected={"metric": metric_r, "nis": nis_ref},
+            outcome="distinct" if distinct else "coincide",
+            item=item,
+        )
+        okn = r_nis is not None and abs(r_nis - nis_ref) <= tol * max(abs(nis_ref), 1e-300)
+        res.case(
+            f"{sub}/nis",
+            mk(single_step_nis=nis_ref, statistic=metric_r) if not okn else _EMPTY,
+            okn,
+            nontrivial=distinct,
+            signature=f"C17/{kind}/report/nis",
+            observed={"metric": r_metric, "nis": r_nis},
+            expected={"metric": metric_r, "nis": nis_ref},
+            item=item,
+        )
+        okt = r_thr is not None and r_thr == alpha
+        res.case(
+            f"{sub}/threshold",
+            mk() if not okt else _EMPTY,
+            okt,
+            signature=f"C17/{kind}/report/threshold",
+            observed=r_thr,
+            expected=alpha,
+            item=item,
+        )
+        # the reported statistic reaches the bound of the REPORTED threshold at the documented degrees of freedom
+        try:
+            okb = r_metric is not None and r_thr is not None and 0.0 < r_thr < 1.0 and (
+                r_metric >= ref.upper_tail_bound(r_thr, dof_r) * (1.0 - max(tol, EITHER))
+            )
+        except ArithmeticError:  # a reported threshold so extreme that the reference inverse cannot be validated
+            okb = False
+        res.case(
+            f"{sub}/reaches_bound",
+            mk(dof=dof_r, bound=bound_r) if not okb else _EMPTY,
+            okb,
+            nontrivial=distinct,
+            signature=f"C17/{kind}/report/below_its_bound",
+            observed={"metric": r_metric, "threshold": r_thr},
+            expected={"metric_at_least": bound_r, "dof": dof_r},
+            item=item,
+        )
+        okc = rec.method == METHOD_NAME[kind]
+        res.case(
+            f"{sub}/method",
+            mk() if not okc else _EMPTY,
+            okc,
+            signature=f"C17/{kind}/report/method",
+            observed=repr(rec.method),
+            expected=METHOD_NAME[kind],
+            item=item,
+        )
+        try:
+            ids = sorted(int(x) for x in rec.sensor_list)
+        except (TypeError, ValueError, AttributeError):
+            ids = repr(rec.sensor_ids)
+        oks = ids == sorted(set(sensors))
+        res.case(
+            f"{sub}/sensor_ids",
+            mk(sensors=list(sensors)) if not oks else _EMPTY,
+            oks,
+            nontrivial=len(set(sensors)) > 1,
+            signature=f"C17/report/sensor_ids/{len(set(sensors))}_sensors",
+            observed=ids,
+            expected=sorted(set(sensors)),
+            outcome=f"sensors:{len(set(sensors))}",
+            item=item,
+        )
+        r_jd = _f(rec.julian_date)
+        oke = r_jd is not None and abs(r_jd - jd_want) <= JD_TOL and rec.target_id == REPORT_TGT
+        res.case(
+            f"{sub}/epoch_target",
+            mk() if not oke else _EMPTY,
+            oke,
+            signature="C17/report/epoch_target",
+            observed={"julian_date": r_jd, "target_id": rec.target_id},
+            expected={"julian_date": jd_want, "target_id": REPORT_TGT},
+            item=item,
+        )
+        res.observe(r_nis, r_metric, r_thr, rec.method, ids, r_jd)
+
+
+def _fresh_db():
+    scen.fresh()  # no actors / objects / cached DB interfaces: a ScenarioClock inserts its epochs on construction
+    setDBPath("sqlite://")
+
+
+class _Reporter:
+    """One real EstimateAgent around a ``_ScriptedUKF``: every call is one real ``EstimateAgent.update`` (serial or job
+    path) of a detector state taken from the explorer, with the explorer's innovation."""
+
+    def __init__(self):
+        _fresh_db()
+        clock = ScenarioClock(REPORT_START, 60 * REPORT_STEP_S, REPORT_STEP_S)
+        x0 = np.array([7000.0, 0.0, 0.0, 0.0, 7.5, 0.0])
+        flt = _ScriptedUKF(REPORT_TGT, ScenarioTime(0.0), x0, np.eye(6), TwoBody(), np.eye(6) * 1e-9, maneuver_detection=None)
+        self.agent = EstimateAgent(REPORT_TGT, "tgt", "Spacecraft", clock, x0, np.eye(6), flt, None, None, 10.0, 100.0, 0.21, seed=1)
+        meas = _measurement("R")
+        jd0 = _jd(REPORT_START, 0.0)
+        self.obs_sets = [
+            (ids, [Observation.fromMeasurement(jd0, REPORT_TGT, x0, sid, np.array(SENSOR_ECI[sid]), "AdvRadar", meas, noisy=False) for sid in ids])
+            for ids in SCRIPT_SENSOR_SETS
+        ]
+
+    def step(self, res, ctx, det, sym, vec, nis_ref, metric_r, dof_r, bound_r, got_filter, state_filter, n, job, step_case):
+        """``det`` (a private copy of the detector state BEFORE the step) goes through one agent update; the decision
+        and the detector state afterwards must be those of the filter-level call of the same transition."""
+        agent = self.agent
+        flt = agent.nominal_filter
+        flt.maneuver_detection = det
+        flt.verif_script = (vec, sym.mat)
+        flt.maneuver_detected = None  # sentinels, as in _Filters.call
+        flt.maneuver_metric = None
+        sensors, obs = self.obs_sets[(n + sym.idx) % len(self.obs_sets)]
+        agent.time = ScenarioTime(REPORT_STEP_S * n)
+        _real(_agent_update, agent, obs, job)
+        ctx.transitions += 1
+        flt = agent.nominal_filter  # the job path hands back another filter object
+        recs = agent.getDetectedManeuvers()
+        agent.getFilterSteps()
+        got = bool(flt.maneuver_detected)
+        path = "job" if job else "serial"
+
+        def mk(**kw):
+            return step_case(agent_path=path, **kw)
+
+        ok = got == got_filter and _canon(flt.maneuver_detection) == state_filter
+        res.case(
+            "report/agent_vs_filter",
+            mk() if (not ok or len(res.samples) < 2) else _EMPTY,
+            ok,
+            signature=f"C17/{ctx.kind}/differential/agent_vs_filter/{path}",
+            observed={"detected": got, "state": repr(_canon(flt.maneuver_detection))},
+            expected={"detected": got_filter, "state": repr(state_filter)},
+            outcome=f"agent_{path}",
+            item=ctx.item,
+        )
+        _check_records(res, "report", ctx.kind, ctx.alpha, recs, got_filter, nis_ref, metric_r, dof_r, bound_r, sensors,
+                       _jd(REPORT_START, REPORT_STEP_S * n), MTOL, mk, ctx.item)
+
+
 # ------------------------------------------------------------------------------------------------ symbols
 def _m_unit(unit):
     return min(max(unit, M_UNIT_RANGE[0]), M_UNIT_RANGE[1])
@@ -435,6 +720,8 @@ class _Ctx:
         phase = 0.37 * (int(self.seed) % 1000)
         self.syms = [_Sym(i, tuple(spec), self.alpha, phase + 0.11 * i, self.unit) for i, spec in enumerate(FAMILIES[self.family])]
         self.filters = _Filters()
+        # the reporting layer does not depend on the unit of the innovation: agent steps in the unit-1 items only
+        self.reporter = _Reporter() if self.unit == 1.0 else None
         self.states = set()
         self.transitions = 0
         # decisions / metrics of the tree steps and of the root tails, in enumeration order (compared across units)
@@ -579,6 +866,11 @@ def _run_tail(res, ctx, det_node, rdet_node, path_node, tail_sym, length, record
         fixed = rec is None and after == before and tail_sym.vec is not None
         if want_mono or fixed:
             _monotone(res, ctx, path, det if det_prev is None else det_prev, rdet_prev, tail_sym, vec, got, det.metric, step_case)
+        if want_mono and tail_sym.dim >= 2 and ctx.reporter is not None and path_node.length <= REPORT_FULL_DEPTH:
+            # history of length 12 / 50 (window eviction, fading steady state) through the real EstimateAgent; the copy
+            # taken before the step is not modified by _monotone (which works on its own copies)
+            ctx.reporter.step(res, ctx, det_prev, tail_sym, vec, nis, metric_r, dof_r, bound_r, got, after, n,
+                              (n + tail_sym.idx + path_node.length) % 2 == 0, step_case)
         if fixed:
             res.extra["tail_steps_closed_by_fixed_point"] = res.extra.get("tail_steps_closed_by_fixed_point", 0) + (length - n)
             break
@@ -638,6 +930,18 @@ def _run_explore(res, item):
                     item=ctx.item,
                 )
                 _monotone(res, ctx, path2, det, rdet, sym, vec, got, det2.metric, step_case)
+                if (
+                    ctx.reporter is not None
+                    and sym.dim >= 2
+                    and (depth <= REPORT_FULL_DEPTH or len(nxt) % 3 == depth % 3)
+                    and (got or (depth + sym.idx + len(nxt)) % 4 == 0)
+                ):
+                    # the same transition through the real EstimateAgent (reporting layer): every declared maneuver and
+                    # every fourth nominal step of the histories of length <= 3, every third of those of the longer
+                    # ones; an agent update always carries azimuth and elevation, so dimension 1 does not occur there.
+                    # Every fourth one through the parallel job path.
+                    ctx.reporter.step(res, ctx, copy.deepcopy(det), sym, vec, nis, metric_r, dof_r, bound_r, got, state2,
+                                      path2.length, (depth + 2 * sym.idx + len(nxt) // 5) % 4 == 0, step_case)
                 record[path2.hist] = (vec, got, _f(det2.metric), state2)
                 nxt.append((det2, rdet2, path2))
                 if depth <= ctx.d12:
@@ -902,6 +1206,128 @@ def _run_misc(res, item):
             )
 
 
+def _real_run(res, item, kind, alpha, param, rot, burn, job):
+    """One fully real run: EstimateAgent + UKF built by the real factories from real configs, truth with one burn,
+    real Observations; prediction through EstPredictRegistration + asyncPredict, update through EstimateAgent.update or
+    the job path.  The reference statistic is recomputed from the whole history of the filter's own innovations."""
+    _fresh_db()
+    clock = ScenarioClock(REPORT_START, REAL_DT * REAL_STEPS, REAL_DT)
+    dyn = TwoBody()
+    truth = np.array(REAL_TRUTH_0)
+    est_x = truth + np.array(REAL_EST_OFFSET)
+    if kind == STANDARD:
+        md = StandardNISConfig(threshold=alpha)
+    elif kind == SLIDING:
+        md = SlidingNISConfig(threshold=alpha, window_size=param)
+    else:
+        md = FadingMemoryNISConfig(threshold=alpha, delta=param)
+    flt = _real(sequentialFilterFactory, UKFConfig(maneuver_detection=md), REPORT_TGT, clock.time, est_x, np.diagflat(REAL_P0), dyn, 1e-9 * np.eye(6))
+    agent = _real(EstimateAgent, REPORT_TGT, "tgt", "Spacecraft", clock, est_x, flt.est_p, flt, None, None, 10.0, 100.0, 0.21, seed=1)
+    meas = {k: _measurement(k) for k in MEAS_DIM}
+    sids = sorted(SENSOR_ECI)
+    rdet = _make_ref(kind, alpha, param)
+    path = "job" if job else "serial"
+    near = False
+    reported = []
+    for step in range(1, REAL_STEPS + 1):
+        truth = dyn.propagate(ScenarioTime(REAL_DT * (step - 1)), ScenarioTime(REAL_DT * step), truth)
+        if step == REAL_BURN_STEP:
+            truth = truth + np.array([0.0, 0.0, 0.0, 0.0, burn, -burn])
+        _real(_agent_predict, agent)
+        clock.ticToc()
+        kinds = REAL_PATTERN[(step - 1 + rot) % len(REAL_PATTERN)]
+        jd_want = _jd(REPORT_START, REAL_DT * step)
+        obs, sensors = [], []
+        for j, mk_ in enumerate(kinds):
+            sid = sids[(j + step) % len(sids)]
+            sensors.append(sid)
+            obs.append(Observation.fromMeasurement(jd_want, REPORT_TGT, truth, sid, np.array(SENSOR_ECI[sid]), "AdvRadar", meas[mk_], noisy=False))
+        state_before = _canon(agent.nominal_filter.maneuver_detection)
+        _real(_agent_update, agent, obs, job)
+        flt = agent.nominal_filter
+        det = flt.maneuver_detection
+        recs = agent.getDetectedManeuvers()
+        agent.getFilterSteps()
+        res.transitions += 1
+
+        def mk(_step=step, _kinds=kinds, **kw):
+            c = {"kind": kind, "alpha": alpha, "param": param, "burn_km_s": burn, "agent_path": path, "step": _step,
+                 "measurements": "+".join(_kinds) or "none", "pattern_rotation": rot}
+            c.update(kw)
+            return c
+
+        if not obs:
+            # no observation: the detector is not consulted, nothing is reported
+            ok = not recs and _canon(det) == state_before
+            res.case("real/no_observation", mk(), ok, nontrivial=len(rdet.nis) > 0,
+                     signature=f"C17/{kind}/report/no_observation", observed={"records": len(recs), "state": repr(_canon(det))},
+                     expected={"records": 0, "state": repr(state_before)}, item=item)
+            continue
+        innov = [float(x) for x in np.asarray(flt.innovation).ravel()]
+        cvr = np.array(flt.innov_cvr, dtype=float)
+        dim = len(innov)
+        if dim != sum(MEAS_DIM[k] for k in kinds):
+            raise RuntimeError(f"harness: innovation of dimension {dim} for measurements {kinds}")
+        sd = np.sqrt(np.diag(cvr))
+        cond = float(np.linalg.cond(cvr / np.outer(sd, sd)))
+        if not cond < REAL_COND_MAX:
+            raise ArithmeticError(f"real run: innovation correlation matrix too ill-conditioned for REAL_TOL: {cond}")
+        nis_ref = ref.quad_form(innov, cvr.tolist())
+        metric_r, dof_r, bound_r = rdet.step(nis_ref, dim)
+        near = near or abs(metric_r - bound_r) <= 2.0 * EPS * bound_r
+        got = bool(flt.maneuver_detected)
+        expected = metric_r >= bound_r
+        if abs(metric_r - bound_r) <= REAL_TOL * bound_r:
+            res.either_way += 1
+            ok, outcome = True, "either"
+        else:
+            ok, outcome = got == expected, "detected" if expected else "nominal"
+        res.case(
+            "real/decision",
+            mk(metric=metric_r, bound=bound_r, dof=dof_r) if (not ok or len(res.samples) < 2) else _EMPTY,
+            ok,
+            nontrivial=len(rdet.nis) > 1,  # dimensions vary from step to step in every run
+            signature=f"C17/{kind}/real/decision/{'missed_detection' if expected else 'false_detection'}",
+            observed={"detected": got, "metric": _f(det.metric)},
+            expected={"detected": expected, "metric": metric_r, "bound": bound_r, "dof": dof_r},
+            outcome=outcome,
+            item=item,
+        )
+        okm = _f(det.metric) is not None and abs(_f(det.metric) - metric_r) <= REAL_TOL * max(abs(metric_r), 1e-300)
+        res.case("real/metric", mk(metric=metric_r) if not okm else _EMPTY, okm, signature=f"C17/{kind}/real/metric",
+                 observed=_f(det.metric), expected=metric_r, item=item)
+        res.observe(got, _f(det.metric), _f(flt.nis))
+        _check_records(res, "real/report", kind, alpha, recs, got, nis_ref, metric_r, dof_r, bound_r, sensors, jd_want, REAL_TOL, mk, item)
+        reported.append([(float(r.nis), float(r.metric), r.sensor_ids, float(r.julian_date)) for r in recs])
+    res.traces += 1
+    res.states += len(rdet.nis)
+    return reported
+
+
+def _run_real(res, item):
+    """Every burn x {serial update, job path} for one detector configuration; the two paths of one burn report the same
+    records bit for bit."""
+    _, kind, alpha, param, seed = item
+    rot = int(seed) % len(REAL_PATTERN)
+    detections = 0
+    for burn in REAL_BURNS:
+        runs = [_real_run(res, item, kind, alpha, param, rot, burn, job) for job in (False, True)]
+        detections += sum(len(r) for r in runs[0])
+        ok = runs[0] == runs[1]
+        res.case(
+            "real/serial_vs_job",
+            {"kind": kind, "alpha": alpha, "param": param, "burn_km_s": burn, "pattern_rotation": rot},
+            ok,
+            nontrivial=any(runs[0]),
+            signature=f"C17/{kind}/differential/serial_vs_job",
+            observed=repr(runs[1])[:400],
+            expected=repr(runs[0])[:400],
+            item=item,
+        )
+    if detections == 0:
+        res.cap(f"real runs of {kind} threshold {alpha} param {param}: no maneuver was declared at any burn; the reporting layer is not exercised there")
+
+
 def run_item(item):
     res = fw.Result()
     item = tuple(item)
@@ -915,6 +1341,8 @@ def run_item(item):
             _run_tie(res, item)
         elif kind == "misc":
             _run_misc(res, item)
+        elif kind == "real":
+            _run_real(res, item)
         else:
             raise ValueError(kind)
     except _RealCallError as exc:
